@@ -27,7 +27,8 @@ ASSUMPTIONS = ["variant g_prod implementations perform the same floating-point o
                "drift-and-diffusion-product; euler_heun additionally the diffusion product; milstein/srk/log_ode(general)/"
                "reversible_heun need the diffusion itself"]
 REQUIRED_COUNTERS = ["variant_equal", "variant_explicit_error", "op_prod", "op_gdg_diagonal", "op_gdg_scalar",
-                     "op_gdg_additive", "op_levy_v1", "op_levy_v2", "renamed_runs", "renamed_with_decoy_runs"]
+                     "op_gdg_additive", "op_levy_v1", "op_levy_v2", "renamed_runs", "renamed_with_decoy_runs",
+                     "op_gdg_general_columnwise"]
 VARIANTS = ["f_g", "f_and_g", "f_gprod", "f_and_g_prod", "f_and_g+g_prod", "all", "renamed", "renamed+decoy",
             "renamed_pair+decoy", "renamed_pairprod+decoy"]
 # renaming through `names`: the method named by the user is the one integrated, also when the object happens to have
@@ -123,7 +124,8 @@ def run_iface(case):
     rng = random.Random(case["rseed"])
     viol, cnt = [], {}
     d, m, B = 3, 2, 2
-    base = zoo.cell_sde(cell, d=d, m=m, seed=rng.randrange(10 ** 6), gscale=0.6)
+    # (additive diffusion that differs between batch rows, element-wise diffusion with components of either sign)
+    base = zoo.cell_sde(cell, d=d, m=m, seed=rng.randrange(10 ** 6), gscale=0.6, batch_varying=True, signed=True)
     y0 = torch.randn(B, d, generator=torch.Generator().manual_seed(case["rseed"]))
     ts = [0.0, 0.3, 0.5]
     dt = 0.1
@@ -188,7 +190,8 @@ def run_op(case):
     nt = case["noise_type"]
     viol, cnt, mx = [], {}, {}
     d, m, B = rng.choice([2, 3, 4]), rng.choice([2, 3]), rng.choice([1, 3])
-    sde = zoo.NeuralSDE(d, m, nt, rng.choice(["ito", "stratonovich"]), seed=rng.randrange(10 ** 6))
+    sde = zoo.NeuralSDE(d, m, nt, rng.choice(["ito", "stratonovich"]), seed=rng.randrange(10 ** 6),
+                        batch_varying=rng.random() < 0.5, signed=rng.random() < 0.5)
     m = sde.m
     gen = torch.Generator().manual_seed(case["rseed"])
     y = torch.randn(B, d, generator=gen)
@@ -224,6 +227,15 @@ def run_op(case):
             cmp("op_prod", gp, want_prod)
             if not ge and (torch.is_tensor(gdg) and gdg.requires_grad):
                 viol.append({"mechanism": "graph_kept_under_no_grad:gdg", "detail": nt})
+    else:
+        # general noise: no solver uses the operator with more than one channel, but it is part of ForwardSDE; it is
+        # the column-wise term  sum_l v2_l (d g_l / d y) g_l  (what the scalar case is the m = 1 instance of)
+        want_gdg = torch.einsum("bilj,bjl,bl->bi", dG, G, v2)
+        for ge in (True, False):
+            with torch.set_grad_enabled(ge):
+                gp, gdg = fs.g_prod_and_gdg_prod(t, y, v1, v2)
+            cmp("op_gdg_general_columnwise", torch.zeros_like(want_gdg) + gdg, want_gdg)
+            cmp("op_prod", gp, want_prod)
     # Levy-area Jacobian term: sum_{j,k,l} d g_{i,l}/d y_j g_{j,k} A_{k,l}
     A = torch.randn(B, m, m, generator=gen)
     A = A - A.transpose(1, 2)
